@@ -124,6 +124,7 @@ def _why(log):
 def make_runner(get_harness, targets, quick_runs, thorough_runs):
     def run(pid, part, exe, tier, seed, workdir, avoid, env):
         runs = quick_runs if tier == "quick" else thorough_runs
+        runs = max(1000, int(runs * float(os.environ.get("VERIF_SCALE", "1") or "1")))   # sanity runs of a tier (never registered)
         replaydir = os.path.join(B.BUILD, "replay")
         regress_dir = os.path.join(B.ROOT, "regress", "C05")
         with B.BuildLock():
